@@ -44,7 +44,7 @@ func init() {
 		return out
 	}
 	c13Leaves['I'] = [3][]c13E{lits("i", "0", "1", "2", "3", "5", "7", "10", "12", "100"), paths("n1", "n2", "n0", "ng", "i64", "i32", "u8"), paths("m.x", "m.in.k", "l[0]", "l[2]", "li[1]", "msi.k", "st.Count", "ps.Count")}
-	c13Leaves['F'] = [3][]c13E{lits("f", "0.5", "2.5", "1.25", "4.0"), paths("f1", "f2", "f32", "fi"), paths("m.r")}
+	c13Leaves['F'] = [3][]c13E{lits("f", "0.5", "2.5", "1.25", "4.0"), paths("f1", "f2", "f32", "fi", "fbig", "fsmall"), paths("m.r")}
 	c13Leaves['S'] = [3][]c13E{lits("s", "k1", "zed", "a b", "Hi"), paths("s1", "s2", "se", "sp"), paths("m.name", "m.in.w", "ls[0]", "ls[1]", "mss.k", "st.Plain", "ps.Plain")}
 	c13Leaves['B'] = [3][]c13E{lits("b", "true", "false"), paths("bt", "bf", "b1", "b2"), paths("m.ok", "m.off", "st.On")}
 
@@ -287,7 +287,7 @@ func c13BuildSpecials() {
 // ---------------------------------------------------------------- filter chains
 
 var c13Steps []c13E
-var c13Starts = []string{"s1", "n1", "bt", "l", "s2", "sp", "ng", "f1", "sn", "nope", "se", "i64", "sbad"}
+var c13Starts = []string{"s1", "n1", "bt", "l", "s2", "sp", "ng", "f1", "fbig", "sn", "nope", "se", "i64", "sbad"}
 
 const c13NStartsLen3 = 4
 
@@ -313,7 +313,7 @@ type c13Tagged struct {
 var c13Pairs []c13Tagged
 
 func c13BuildPairs() {
-	vars := []string{"n1", "n65", "i64", "i32", "u8", "f1", "fi", "f32", "s1", "sn", "sf", "sb", "se", "sneg", "bt", "bf", "nl", "nope", "l", "m", "st", "ts"}
+	vars := []string{"n1", "n65", "i64", "i32", "u8", "f1", "fi", "f32", "fbig", "fsmall", "s1", "sn", "sf", "sb", "se", "sneg", "bt", "bf", "nl", "nope", "l", "m", "st", "ts"}
 	lit := []c13E{c13Int(7), c13Int(65), c13Lit("i", "-3"), c13Lit("f", "2.5"), c13Lit("b", "true"), c13Lit("b", "false"), c13Str("zed"), c13Str("42"), c13Str("2.5"), c13Str("true")}
 	plain := map[string]string{"pStr": "plain", "pInt": "plain", "pI64": "plain", "pUint": "plain", "pF64": "plain", "pBool": "plain", "pAny": "plain",
 		"pVarS": "variadic", "pVarI": "variadic", "pCtxS": "ctx", "pCtxI": "ctx", "pErrS": "err", "pErrI": "err"}
